@@ -226,6 +226,47 @@ var c10Cases = []c10Case{
 	},
 }
 
+func init() {
+	c10Cases = append(c10Cases,
+		// ------------------------------------------------------------ suspect 3 (C10-R7)
+		c10Case{
+			name:     "S3 workload UNSET, port 9090 DISABLE, no namespace policy, mesh STRICT",
+			suspect:  3,
+			workload: c10NoMtlsBlock(),
+			ports:    map[uint32]auth.PeerAuthentication_MutualTLS_Mode{9090: c10Disable},
+			ns:       c10None(),
+			mesh:     c10Mode(c10Strict),
+			// port-level DISABLE wins on 9090; 8080 inherits mesh STRICT
+			wantStrict: map[uint32]bool{9090: false, 8080: true},
+		},
+		c10Case{
+			name:       "S3 workload UNSET, port 9090 DISABLE, namespace STRICT, no mesh policy",
+			suspect:    3,
+			workload:   c10NoMtlsBlock(),
+			ports:      map[uint32]auth.PeerAuthentication_MutualTLS_Mode{9090: c10Disable},
+			ns:         c10Mode(c10Strict),
+			mesh:       c10None(),
+			wantStrict: map[uint32]bool{9090: false, 8080: true},
+		},
+		c10Case{
+			name:       "S3 control: workload UNSET, port 9090 PERMISSIVE, no namespace policy, mesh STRICT",
+			workload:   c10NoMtlsBlock(),
+			ports:      map[uint32]auth.PeerAuthentication_MutualTLS_Mode{9090: c10Permissive},
+			ns:         c10None(),
+			mesh:       c10Mode(c10Strict),
+			wantStrict: map[uint32]bool{9090: false, 8080: true},
+		},
+		c10Case{
+			name:       "S3 control: workload STRICT, port 9090 DISABLE, no namespace policy, mesh STRICT",
+			workload:   c10Mode(c10Strict),
+			ports:      map[uint32]auth.PeerAuthentication_MutualTLS_Mode{9090: c10Disable},
+			ns:         c10None(),
+			mesh:       c10Mode(c10Strict),
+			wantStrict: map[uint32]bool{9090: false, 8080: true},
+		},
+	)
+}
+
 var c10ProbePorts = []uint32{8080, 9090}
 
 const (
